@@ -33,6 +33,10 @@ func SkipNumber(src string, pos int) (ret int) {
 	for ; sp < se; sp += uintptr(1) {
 		c := *(*byte)(unsafe.Pointer(sp))
 		if isDigit(c) {
+			// RFC 8259: a leading zero is not followed by another digit
+			if sp == ss+1 && *(*byte)(unsafe.Pointer(ss)) == '0' {
+				return -int(types.ERR_INVALID_CHAR)
+			}
 			lastIsDigit = true
 			nextNeedDigit = false
 			continue
